@@ -39,7 +39,7 @@ REQUIRED_COUNTERS = ["model_decided", "documented_error_cases", "rules_cases", "
 HASHES, ARRAYS, AOH, SETS = ["deep", "left", "right"], ["all", "left", "right", "unique"], \
     ["all", "deep", "left", "right", "unique"], ["left", "right", "unique"]
 ALL_COMBOS = list(itertools.product(HASHES, ARRAYS, AOH, SETS))
-SC = ["1", "2", "3", "x", "y", "z", "null", "'a b'", "1.5"]
+SC = ["1", "2", "3", "x", "y", "z", "null", "'1'", "'2'", "'a b'", "1.5"]     # '1' / 1: equal as text, different as data
 KEYS = ["a", "b", "c", "d"]
 
 
@@ -54,7 +54,7 @@ def gen_tree(rng, depth=0, want=None):
     if want == "map":
         return ("map", [(k, gen_tree(rng, depth + 1)) for k in rng.sample(KEYS, min(n, 4))])
     if want == "seq":
-        return ("seq", [("s", rng.choice(SC[:7])) for _ in range(n)])
+        return ("seq", [("s", rng.choice(SC[:9])) for _ in range(n)])
     if want == "aoh":
         recs = []
         for _ in range(max(1, n)):
@@ -97,7 +97,7 @@ def derive(rng, t, depth=0):
             # identity key first in every record
             recs = [("map", sorted(r[1], key=lambda kv: kv[0] != "id")) if r[0] == "map" else r for r in recs]
             return ("seq", recs)
-        items = [e for e in t[1] if rng.random() < 0.6] + [("s", rng.choice(SC[:7])) for _ in range(rng.randrange(0, 3))]
+        items = [e for e in t[1] if rng.random() < 0.6] + [("s", rng.choice(SC[:9])) for _ in range(rng.randrange(0, 3))]
         return ("seq", items) if rng.random() < 0.9 else gen_tree(rng, depth)
     if k == "set":
         return ("set", rng.sample(["p", "q", "r", "s", "t"], rng.randrange(1, 4))) if rng.random() < 0.9 else gen_tree(rng, depth)
